@@ -138,6 +138,10 @@ func runBoot(sc M) {
 				want = append(want, name)
 				// the firmware-named variable exists (upper-case hex), its description carries the number
 				opt := append(le32(7), simpleOption(fmt.Sprintf("E%d", numv(n)))...)
+				if k%2 == 1 {
+					// every second entry carries optional data behind its device path (as the entries firmware and Windows create do)
+					opt = append(opt, append([]byte("WINDOWS\x00"), prbytes(fmt.Sprint("optdata", k), 17)...)...)
+				}
 				p := fmt.Sprintf("/sys/firmware/efi/efivars/Boot%04X-%s", numv(n), globalGUIDText)
 				files[p] = &fstest.MapFile{Data: opt}
 				afero.WriteFile(mem, p, opt, 0644)
